@@ -35,9 +35,9 @@ func genStress(rt *rapid.T, thorough bool) *StressProgram {
 
 func genLockProgram(rt *rapid.T) *LockProgram {
 	p := &LockProgram{}
-	n := rapid.IntRange(2, 6).Draw(rt, "actors")
+	n := rapid.IntRange(2, 7).Draw(rt, "actors")
 	for i := 0; i < n; i++ {
-		p.Actors = append(p.Actors, rapid.SampledFrom([]string{"reader", "reader", "committer", "rollbacker", "closer"}).Draw(rt, "kind"))
+		p.Actors = append(p.Actors, rapid.SampledFrom([]string{"reader", "reader", "reader", "committer", "rollbacker", "closer"}).Draw(rt, "kind"))
 	}
 	p.Schedule = rapid.SliceOfN(rapid.IntRange(0, 5), 0, 40).Draw(rt, "schedule")
 	return p
